@@ -55,6 +55,14 @@ func spd(r *prng.Rand, n int, unitDiag bool) []float64 {
 	return S
 }
 
+// nClass: for n = 1 matrix and element-wise operations coincide.
+func nClass(n int) string {
+	if n == 1 {
+		return "n=1"
+	}
+	return "n>1"
+}
+
 func rvec(r *prng.Rand, n int, scale float64) []float64 {
 	v := make([]float64, n)
 	for i := range v {
@@ -166,7 +174,7 @@ func nilIfErrM[T st.MatrixPdf](d T, err error) (st.MatrixPdf, error) {
 }
 
 func (sp *mvSpec) event() map[string]any {
-	ev := map[string]any{"k": "mv", "fam": sp.fam, "n": sp.n, "pclass": fmt.Sprintf("n=%d", sp.n)}
+	ev := map[string]any{"k": "mv", "fam": sp.fam, "n": sp.n, "pclass": nClass(sp.n)}
 	for k, v := range sp.par {
 		ev["p_"+k] = hxs(v)
 	}
@@ -181,7 +189,8 @@ func runMulti(c *fw.Ctx) {
 		n := 1 + (cs.Index/3)%4
 		sp := mvGen(r, fam, n)
 		ev := sp.event()
-		sig := fmt.Sprintf("C14|%s|n=%d", fam, n)
+		sig := fmt.Sprintf("C14|%s|%s", fam, nClass(n))
+		rsig := fmt.Sprintf("C14|%s|-", fam)
 		var X [][]float64
 		for i := 0; i < 6; i++ {
 			x := make([]float64, n)
@@ -213,11 +222,11 @@ func runMulti(c *fw.Ctx) {
 			// clone
 			var cl st.VectorPdf
 			if pn := fw.Call(func() { cl = d.CloneVectorPdf() }); pn != nil || cl == nil {
-				cs.Violation(sig+"|clone|roundtrip", "CloneVectorPdf panics or returns nil", ev)
+				cs.Violation(rsig+"|clone|roundtrip", "CloneVectorPdf panics or returns nil", ev)
 			} else {
 				for j, x := range X {
 					if v := evalVecLP(cl, ty.t, x); v != vals[j] {
-						cs.Violation(sig+"|clone|roundtrip", fmt.Sprintf("clone.LogPdf(%v) = %s, original %s", x, v, vals[j]), ev)
+						cs.Violation(rsig+"|clone|roundtrip", fmt.Sprintf("clone.LogPdf(%v) = %s, original %s", x, v, vals[j]), ev)
 						break
 					}
 				}
@@ -229,13 +238,13 @@ func runMulti(c *fw.Ctx) {
 			var serr error
 			if pn := fw.Call(func() { e, err = other.mkV(ty.t) }); pn == nil && err == nil && e != nil {
 				if pn := fw.Call(func() { serr = e.SetParameters(d.GetParameters().CloneVector()) }); pn != nil {
-					cs.Violation(sig+"|set|roundtrip", "SetParameters(GetParameters()) panics: "+pn.Msg, ev)
+					cs.Violation(rsig+"|set|roundtrip", "SetParameters(GetParameters()) panics: "+pn.Msg, ev)
 				} else if serr != nil {
-					cs.Violation(sig+"|set|roundtrip", fmt.Sprintf("SetParameters(GetParameters()) returns error: %v", serr), ev)
+					cs.Violation(rsig+"|set|roundtrip", fmt.Sprintf("SetParameters(GetParameters()) returns error: %v", serr), ev)
 				} else {
 					for j, x := range X {
 						if v := evalVecLP(e, ty.t, x); v != vals[j] {
-							cs.Violation(sig+"|set|roundtrip", fmt.Sprintf("LogPdf(%v) = %s after SetParameters(GetParameters()), original %s", x, v, vals[j]), ev)
+							cs.Violation(rsig+"|set|roundtrip", fmt.Sprintf("LogPdf(%v) = %s after SetParameters(GetParameters()), original %s", x, v, vals[j]), ev)
 							break
 						}
 					}
@@ -274,7 +283,8 @@ func runMulti(c *fw.Ctx) {
 		n := 1 + cs.Index%4
 		sp := mvGen(r, "iwishart", n)
 		ev := sp.event()
-		sig := fmt.Sprintf("C14|iwishart|n=%d", n)
+		sig := "C14|iwishart|" + nClass(n)
+		rsig := "C14|iwishart|-"
 		var X [][]float64
 		for i := 0; i < 4; i++ {
 			X = append(X, spd(r, n, false))
@@ -303,11 +313,11 @@ func runMulti(c *fw.Ctx) {
 			ev["lp"+ty.name] = vals
 			var cl st.MatrixPdf
 			if pn := fw.Call(func() { cl = d.CloneMatrixPdf() }); pn != nil || cl == nil {
-				cs.Violation(sig+"|clone|roundtrip", "CloneMatrixPdf panics or returns nil", ev)
+				cs.Violation(rsig+"|clone|roundtrip", "CloneMatrixPdf panics or returns nil", ev)
 			} else {
 				for j, x := range X {
 					if v := evalMatLP(cl, ty.t, x, n); v != vals[j] {
-						cs.Violation(sig+"|clone|roundtrip", fmt.Sprintf("clone.LogPdf = %s, original %s (X = %v)", v, vals[j], x), ev)
+						cs.Violation(rsig+"|clone|roundtrip", fmt.Sprintf("clone.LogPdf = %s, original %s (X = %v)", v, vals[j], x), ev)
 						break
 					}
 				}
@@ -318,13 +328,13 @@ func runMulti(c *fw.Ctx) {
 			var serr error
 			if pn := fw.Call(func() { e, err = other.mkM(ty.t) }); pn == nil && err == nil && e != nil {
 				if pn := fw.Call(func() { serr = e.SetParameters(d.GetParameters().CloneVector()) }); pn != nil {
-					cs.Violation(sig+"|set|roundtrip", "SetParameters(GetParameters()) panics: "+pn.Msg, ev)
+					cs.Violation(rsig+"|set|roundtrip", "SetParameters(GetParameters()) panics: "+pn.Msg, ev)
 				} else if serr != nil {
-					cs.Violation(sig+"|set|roundtrip", fmt.Sprintf("SetParameters(GetParameters()) returns error: %v", serr), ev)
+					cs.Violation(rsig+"|set|roundtrip", fmt.Sprintf("SetParameters(GetParameters()) returns error: %v", serr), ev)
 				} else {
 					for j, x := range X {
 						if v := evalMatLP(e, ty.t, x, n); v != vals[j] {
-							cs.Violation(sig+"|set|roundtrip", fmt.Sprintf("LogPdf = %s after SetParameters(GetParameters()), original %s", v, vals[j]), ev)
+							cs.Violation(rsig+"|set|roundtrip", fmt.Sprintf("LogPdf = %s after SetParameters(GetParameters()), original %s", v, vals[j]), ev)
 							break
 						}
 					}
@@ -363,9 +373,10 @@ func runMulti(c *fw.Ctx) {
 		kappa := r.LogUniform(0.1, 10)
 		nu := float64(n) - 1 + r.LogUniform(0.3, 30)
 		mu0, lambda := rvec(r, n, 2), spd(r, n, false)
-		ev := map[string]any{"k": "mv", "fam": "niw", "n": n, "pclass": fmt.Sprintf("n=%d", n),
+		ev := map[string]any{"k": "mv", "fam": "niw", "n": n, "pclass": nClass(n),
 			"p_kappa": hxs([]float64{kappa}), "p_nu": hxs([]float64{nu}), "p_mu": hxs(mu0), "p_lambda": hxs(lambda)}
-		sig := fmt.Sprintf("C14|niw|n=%d", n)
+		sig := "C14|niw|" + nClass(n)
+		rsig := "C14|niw|-"
 		var M, S [][]float64
 		for i := 0; i < 4; i++ {
 			m := make([]float64, n)
@@ -404,11 +415,11 @@ func runMulti(c *fw.Ctx) {
 			ev["lp"+ty.name] = vals
 			var cl *md.NormalIWishartDistribution
 			if pn := fw.Call(func() { cl = d.Clone() }); pn != nil || cl == nil {
-				cs.Violation(sig+"|clone|roundtrip", "Clone panics or returns nil", ev)
+				cs.Violation(rsig+"|clone|roundtrip", "Clone panics or returns nil", ev)
 			} else {
 				for j := range M {
 					if v := evalNIW(cl, ty.t, M[j], S[j]); v != vals[j] {
-						cs.Violation(sig+"|clone|roundtrip", fmt.Sprintf("clone.LogPdf = %s, original %s", v, vals[j]), ev)
+						cs.Violation(rsig+"|clone|roundtrip", fmt.Sprintf("clone.LogPdf = %s, original %s", v, vals[j]), ev)
 						break
 					}
 				}
@@ -422,13 +433,13 @@ func runMulti(c *fw.Ctx) {
 				e, err = md.NewNormalIWishartDistribution(sc(ty.t, k2), sc(ty.t, nu2), vec(ty.t, mu2), mat(ty.t, l2, n, n))
 			}); pn == nil && err == nil && e != nil {
 				if pn := fw.Call(func() { serr = e.SetParameters(d.GetParameters().CloneVector()) }); pn != nil {
-					cs.Violation(sig+"|set|roundtrip", "SetParameters(GetParameters()) panics: "+pn.Msg, ev)
+					cs.Violation(rsig+"|set|roundtrip", "SetParameters(GetParameters()) panics: "+pn.Msg, ev)
 				} else if serr != nil {
-					cs.Violation(sig+"|set|roundtrip", fmt.Sprintf("SetParameters(GetParameters()) returns error: %v", serr), ev)
+					cs.Violation(rsig+"|set|roundtrip", fmt.Sprintf("SetParameters(GetParameters()) returns error: %v", serr), ev)
 				} else {
 					for j := range M {
 						if v := evalNIW(e, ty.t, M[j], S[j]); v != vals[j] {
-							cs.Violation(sig+"|set|roundtrip", fmt.Sprintf("LogPdf = %s after SetParameters(GetParameters()), original %s", v, vals[j]), ev)
+							cs.Violation(rsig+"|set|roundtrip", fmt.Sprintf("LogPdf = %s after SetParameters(GetParameters()), original %s", v, vals[j]), ev)
 							break
 						}
 					}
@@ -469,10 +480,10 @@ func runMulti(c *fw.Ctx) {
 		{"mvt", "sigma-not-pd", func(t ad.ScalarType) (any, error) {
 			return vd.NewTDistribution(sc(t, 3), vec(t, []float64{0, 0}), mat(t, notPD, 2, 2))
 		}},
-		{"mvt", "nu=0", func(t ad.ScalarType) (any, error) {
+		{"mvt", "nu<=0", func(t ad.ScalarType) (any, error) {
 			return vd.NewTDistribution(sc(t, 0), vec(t, []float64{0, 0}), mat(t, I2, 2, 2))
 		}},
-		{"mvt", "nu<0", func(t ad.ScalarType) (any, error) {
+		{"mvt", "nu<=0", func(t ad.ScalarType) (any, error) {
 			return vd.NewTDistribution(sc(t, -2), vec(t, []float64{0, 0}), mat(t, I2, 2, 2))
 		}},
 		{"mvt", "dim-mismatch", func(t ad.ScalarType) (any, error) {
@@ -481,10 +492,10 @@ func runMulti(c *fw.Ctx) {
 		{"skewnormal", "omega-not-pd", func(t ad.ScalarType) (any, error) {
 			return vd.NewSkewNormalDistribution(vec(t, []float64{0, 0}), mat(t, notPD, 2, 2), vec(t, []float64{1, 1}), vec(t, []float64{1, 1}))
 		}},
-		{"skewnormal", "scale=0", func(t ad.ScalarType) (any, error) {
+		{"skewnormal", "scale<=0", func(t ad.ScalarType) (any, error) {
 			return vd.NewSkewNormalDistribution(vec(t, []float64{0, 0}), mat(t, I2, 2, 2), vec(t, []float64{1, 1}), vec(t, []float64{1, 0}))
 		}},
-		{"skewnormal", "scale<0", func(t ad.ScalarType) (any, error) {
+		{"skewnormal", "scale<=0", func(t ad.ScalarType) (any, error) {
 			return vd.NewSkewNormalDistribution(vec(t, []float64{0, 0}), mat(t, I2, 2, 2), vec(t, []float64{1, 1}), vec(t, []float64{1, -2}))
 		}},
 		{"skewnormal", "dim-mismatch", func(t ad.ScalarType) (any, error) {
@@ -496,16 +507,16 @@ func runMulti(c *fw.Ctx) {
 		{"iwishart", "nu<=n-1", func(t ad.ScalarType) (any, error) {
 			return md.NewInverseWishartDistribution(sc(t, 0.5), mat(t, I2, 2, 2))
 		}},
-		{"iwishart", "nu<0", func(t ad.ScalarType) (any, error) {
+		{"iwishart", "nu<=n-1", func(t ad.ScalarType) (any, error) {
 			return md.NewInverseWishartDistribution(sc(t, -3), mat(t, I2, 2, 2))
 		}},
 		{"iwishart", "S-not-square", func(t ad.ScalarType) (any, error) {
 			return md.NewInverseWishartDistribution(sc(t, 4), mat(t, []float64{1, 0, 0, 1, 0, 0}, 2, 3))
 		}},
-		{"niw", "kappa=0", func(t ad.ScalarType) (any, error) {
+		{"niw", "kappa<=0", func(t ad.ScalarType) (any, error) {
 			return md.NewNormalIWishartDistribution(sc(t, 0), sc(t, 4), vec(t, []float64{0, 0}), mat(t, I2, 2, 2))
 		}},
-		{"niw", "kappa<0", func(t ad.ScalarType) (any, error) {
+		{"niw", "kappa<=0", func(t ad.ScalarType) (any, error) {
 			return md.NewNormalIWishartDistribution(sc(t, -1), sc(t, 4), vec(t, []float64{0, 0}), mat(t, I2, 2, 2))
 		}},
 		{"niw", "lambda-not-pd", func(t ad.ScalarType) (any, error) {
